@@ -1,23 +1,35 @@
 // C20: MFS under concurrency.
 //
-// 2-4 goroutines drive one real MFS root (Lookup/Open/Write/Flush/Close, reads,
-// Size, ListNames, root snapshots read back from the DAG, FlushPath, Mv of
-// private token files, Mkdir, and, in dedicated strata, File.SetMode/
-// SetModTime, File.Mode/ModTime, Directory.Flush and Directory.SetMode) over
-// 1-2 shared files in two directories. The monitor records every client call
-// and return with one logical clock and decides offline:
+// 2-4 goroutines drive one real MFS root through its public API (Lookup, Open,
+// Truncate/Write/Flush/Close, reads, File.Size, ListNames, Root.Flush + root
+// GetNode, FlushPath, File.Flush, Mv of private token files, Mkdir, Directory
+// Mode/ModTime, and - in dedicated strata - File.SetMode/SetModTime,
+// File.Mode/ModTime, Directory.Flush, Directory.SetMode/SetModTime, in-place
+// overwrites and a DAG service whose Add fails) over 1-2 shared files in two
+// directories. The DAG service handed to MFS yields/sleeps at PRNG-chosen calls
+// (MFS calls it between and inside its critical sections). Every client call
+// and return is stamped with one logical clock and judged offline:
 //
-//	(1) deadlock: decided only from two goroutine dumps 2 s apart in which every
-//	    unfinished worker is parked in a sync.(RW)Mutex with identical stacks
-//	    and unchanged progress counters (never from elapsed time);
-//	(2) per shared path a register history (write = Open(W)..Flush/Close ack of
-//	    a unique payload, read = Open(R)..Close | Size | root snapshot read back
-//	    from the DAG | FlushPath node) checked with porcupine;
-//	(3) after the run, FlushPath("/") and a re-read of the flushed root from the
-//	    DAG service (and through a freshly opened MFS root) is appended as a last
-//	    read of every register: it must return a last acknowledged write;
-//	(4) private token files: write, Mv to the other directory, read back;
-//	(5) directory listings always contain the permanent names, no duplicates.
+//	(1) deadlock: declared only from two goroutine dumps 2 s apart in which every
+//	    unfinished worker is parked in a sync.(RW)Mutex with an identical stack
+//	    and no progress counter moved (never from elapsed time); the stacks name
+//	    the class;
+//	(2) per shared path a register history: write = Open(W)..ack by fd.Flush or
+//	    Close of a unique payload; reads = Open(R)+ReadAll, File.Size, the root
+//	    node returned by GetNode read back from the DAG service, the node returned
+//	    by FlushPath(file), and the root most recently handed to the publish
+//	    function when FlushPath(file) returns. porcupine (via vhist) checks
+//	    linearizability; a non-linearizable history is a violation only if it
+//	    breaks the statement's own clause (lostWrite below): some read returns a
+//	    value that was never written, or one that is older than a write
+//	    acknowledged before the read began;
+//	(3) after the run FlushPath("/"), re-read of the flushed root from the DAG
+//	    service and through a freshly opened MFS root: appended as the last read
+//	    of every register;
+//	(4) private token files: write, Mv to the other shared directory, read back,
+//	    source gone (sequential expectation, shared directories);
+//	(5) listings contain the permanent names once; operations on a healthy
+//	    in-memory store do not fail.
 //
 // The race detector is on in both tiers; the driver turns attributed reports
 // into violations.
@@ -56,30 +68,36 @@ import (
 	"verif/vlib"
 )
 
-const whatFlushPathFile = "FlushPath(file) node, DAG read"
+const (
+	whatFlushPathFile = "FlushPath(file) node, DAG read"
+	whatPublishedRoot = "root published when FlushPath(file) returned, DAG read-back"
+)
+
+var errInjected = errors.New("injected DAG fault")
 
 func main() { vlib.Run("C20", run) }
 
 func run(c *vlib.Ctx) {
-	c.Rule("one case = one concurrent run of 2-4 workers x 20-120 ops (thorough: up to 400) on 1-2 shared files in /a,/b of one MFS root " +
+	c.Rule("one case = one concurrent run of 2-4 workers x 20-80 ops (thorough: up to 200) on 1-2 shared files in /a,/b of one MFS root " +
 		"(config: chunker default|size-16, CIDv0|v1, fixed-length overwrite|truncate+write, yield injection rate in the DAG service); " +
-		"strata: rw (every write truncates first; no file attr calls, no cache-dropping flush), overwrite (rw with fixed-length in-place overwrites, i.e. DagModifier.modifyDag), setattr (rw + File.SetMode/SetModTime), dirflush (rw + Directory.Flush/FlushPath(dir)), " +
+		"strata: rw (every write truncates first; no file attr calls, no cache-dropping flush), faults (rw without Mv/Mkdir, DAGService.Add failing for 1-4 of 64 calls: a failed write may or may not have happened, or have only truncated), overwrite (rw with fixed-length in-place overwrites, i.e. DagModifier.modifyDag), setattr (rw + File.SetMode/SetModTime), dirflush (rw + Directory.Flush/FlushPath(dir)), " +
 		"dirattr (rw + Directory.SetMode/SetModTime), modeq (rw + File.Mode/ModTime; runs last because the known re-entrant RLock deadlock aborts the batch); " +
 		"distinct = FNV of the observed per-key history shape (op kinds with call/return order); " +
 		"non-trivial = measured: max concurrency >= 2, some write overlapped another op on the same key, and a read returned a value written by a different worker during the run")
-	c.Cases("rw", c.N(40, 800), func(k *vlib.Case) { oneRun(k, "rw") })
-	c.Cases("overwrite", c.N(16, 240), func(k *vlib.Case) { oneRun(k, "overwrite") })
-	c.Cases("setattr", c.N(16, 320), func(k *vlib.Case) { oneRun(k, "setattr") })
-	c.Cases("dirflush", c.N(16, 240), func(k *vlib.Case) { oneRun(k, "dirflush") })
-	c.Cases("dirattr", c.N(16, 240), func(k *vlib.Case) { oneRun(k, "dirattr") })
+	c.Cases("rw", c.N(32, 300), func(k *vlib.Case) { oneRun(k, "rw") })
+	c.Cases("faults", c.N(12, 100), func(k *vlib.Case) { oneRun(k, "faults") })
+	c.Cases("overwrite", c.N(12, 80), func(k *vlib.Case) { oneRun(k, "overwrite") })
+	c.Cases("setattr", c.N(12, 100), func(k *vlib.Case) { oneRun(k, "setattr") })
+	c.Cases("dirflush", c.N(12, 80), func(k *vlib.Case) { oneRun(k, "dirflush") })
+	c.Cases("dirattr", c.N(12, 80), func(k *vlib.Case) { oneRun(k, "dirattr") })
 	// last: a deadlock stops the batch
-	c.Cases("modeq", c.N(16, 240), func(k *vlib.Case) { oneRun(k, "modeq") })
+	c.Cases("modeq", c.N(16, 80), func(k *vlib.Case) { oneRun(k, "modeq") })
 }
 
 // ---------------------------------------------------------------- history
 
 type in struct {
-	Key    string
+	Key string
 	// 'w' write, 'r' read of the content, 's' size. Operations that MFS
 	// implements as "read fi.node ... store a node derived from it" are recorded
 	// as two halves with the same interval: 'a' (snapshot) or 'R' (snapshot that
@@ -215,11 +233,16 @@ type world struct {
 	tokSeq   []int
 
 	pubs    atomic.Int64
-	orphans atomic.Int64 // dirflush: operations whose inode object was no longer the one Lookup returns when they finished
+	lastPub atomic.Value // cid.Cid most recently passed to the publish function
 
-	auxMu    sync.Mutex
-	aux      []*auxOp // intervals of Directory.SetMode/SetModTime (dirattr stratum) or Directory.Flush (dirflush stratum)
-	tokStart  []int64 // per worker: interval of its current/last token step
+	faultRate uint64 // faults stratum: of 64 DAGService.Add calls, how many fail
+	faultsOn  atomic.Bool
+	tolerated atomic.Int64
+	orphans   atomic.Int64 // dirflush: operations whose inode object was no longer the one Lookup returns when they finished
+
+	auxMu     sync.Mutex
+	aux       []*auxOp // intervals of Directory.SetMode/SetModTime (dirattr stratum) or Directory.Flush (dirflush stratum)
+	tokStart  []int64  // per worker: interval of its current/last token step
 	tokEnd    []int64
 	tokSteps  [][][2]int64 // per worker: intervals of all its finished token steps
 	tokBroken []bool       // per worker: a token anomaly was reported, its location is no longer known
@@ -259,6 +282,9 @@ func (w *world) yield() {
 }
 
 func (y *yieldDS) Add(ctx context.Context, nd ipld.Node) error {
+	if w := y.w; w.faultRate > 0 && w.faultsOn.Load() && mix(w.yieldSeed^0x5eed^w.yieldN.Add(1))%64 < w.faultRate {
+		return errInjected
+	}
 	y.w.yield()
 	err := y.DAGService.Add(ctx, nd)
 	y.w.yield()
@@ -351,16 +377,19 @@ func oneRun(k *vlib.Case, stratum string) {
 	nworkers := r.Range(2, 4)
 	nfiles := r.Range(1, 2)
 	sameDir := r.Bool()
-	nops := r.Range(20, c.N(100, 300))
+	nops := r.Range(20, c.N(80, 200))
+	if stratum == "faults" {
+		w.faultRate = uint64(vlib.Pick(r, []int{1, 2, 4}))
+	}
 	if stratum == "modeq" {
 		// the window of the known re-entrant RLock is a few instructions wide and
 		// has no collaborator call inside: maximise lock traffic on one file
-		nworkers, nfiles, nops, w.yieldRate = r.Range(3, 4), 1, r.Range(80, c.N(200, 400)), 0
+		nworkers, nfiles, nops, w.yieldRate = r.Range(3, 4), 1, r.Range(80, c.N(160, 300)), 0
 	}
 	k.Logf("config stratum=%s workers=%d files=%d sameDir=%v ops/worker=%d chunker=%s cid=v%d fixedLen=%v inPlaceWrites=%v yieldRate=%d/16 GOMAXPROCS=%d",
 		stratum, nworkers, nfiles, sameDir, nops, map[bool]string{false: "default", true: "size-16"}[smallChunks], map[bool]int{false: 0, true: 1}[v1], fixedLen, inPlace, w.yieldRate, runtime.GOMAXPROCS(0))
 
-	root, err := mfs.NewEmptyRoot(ctx, &yieldDS{raw, w}, func(context.Context, cid.Cid) error { w.pubs.Add(1); return nil }, nil, opts...)
+	root, err := mfs.NewEmptyRoot(ctx, &yieldDS{raw, w}, func(_ context.Context, c cid.Cid) error { w.pubs.Add(1); w.lastPub.Store(c); return nil }, nil, opts...)
 	if err != nil {
 		panic(err)
 	}
@@ -480,6 +509,9 @@ func oneRun(k *vlib.Case, stratum string) {
 					o = op{kind: opList, path: filepath.Dir(p)}
 				case y < 80:
 					o = op{kind: opDirStat, path: filepath.Dir(p)}
+				case stratum == "faults":
+					// a failed Mv/Mkdir may be half done; keep this stratum's oracle exact
+					o = op{kind: opRead, path: p}
 				case y < 85:
 					o = op{kind: opTokMv, n: j}
 				default:
@@ -497,6 +529,7 @@ func oneRun(k *vlib.Case, stratum string) {
 		k.Logf("plan w%d: %s", wi, sb.String())
 	}
 
+	w.faultsOn.Store(true)
 	// ---- run under the deadlock monitor
 	w.progress = make([]atomic.Int64, nworkers)
 	var wg sync.WaitGroup
@@ -515,7 +548,9 @@ func oneRun(k *vlib.Case, stratum string) {
 		close(start)
 		completed.Store(w.waitWorkers(&wg))
 	})
+	w.faultsOn.Store(false)
 	c.Count("ms_run", time.Since(t0).Milliseconds())
+	c.Count("tolerated_injected_errors", w.tolerated.Load())
 	if !completed.Load() {
 		// corroborated deadlock (already recorded) or Guard fired: the stuck
 		// goroutines are leaked, nothing below may touch the MFS again.
@@ -613,6 +648,12 @@ func (w *world) readNode(nd ipld.Node) (string, error) {
 // ---------------------------------------------------------------- workers
 
 func (w *world) opErr(step string, o op, err error) {
+	if w.stratum == "faults" && strings.Contains(err.Error(), errInjected.Error()) {
+		// the scripted fault surfaced as this call's error: allowed. What the
+		// failed call may have changed is modelled by the caller.
+		w.tolerated.Add(1)
+		return
+	}
 	cl := "op-error/" + kindName[o.kind] + "-" + step
 	if errors.Is(err, os.ErrNotExist) {
 		cl += "-notexist"
@@ -680,21 +721,32 @@ func (w *world) exec(wi int, o op) {
 			return
 		}
 		acked := false
+		// faults stratum: a write that failed half way may have happened, not
+		// happened, or have only truncated the file. The first two are an
+		// operation that never returns; the third is recorded as such, too.
+		halfDone := func() {
+			if w.stratum == "faults" {
+				w.rec.call(in{Key: o.path, Kind: 'w', Val: "", Client: wi, What: "truncate half of failed " + o.String()})
+			}
+		}
 		if o.trunc {
 			if err := fd.Truncate(0); err != nil {
 				w.opErr("truncate", o, err)
+				halfDone()
 				fd.Close()
 				return
 			}
 		}
 		if n, err := fd.Write([]byte(o.val)); err != nil || n != len(o.val) {
 			w.opErr("write", o, fmt.Errorf("n=%d err=%v", n, err))
+			halfDone()
 			fd.Close()
 			return
 		}
 		if o.fdflush {
 			if err := fd.Flush(); err != nil {
 				w.opErr("flush", o, err)
+				halfDone()
 				fd.Close()
 				return
 			}
@@ -775,12 +827,26 @@ func (w *world) exec(wi int, o op) {
 	case opFlushPathFile:
 		id := w.rec.call(in{Key: o.path, Kind: 'R', Client: wi, What: whatFlushPathFile})
 		idb := w.rec.call(in{Key: o.path, Kind: 'b', Client: wi, What: "FlushPath(file)"})
+		idp := w.rec.call(in{Key: o.path, Kind: 'r', Client: wi, What: whatPublishedRoot})
 		nd, err := mfs.FlushPath(ctx, w.root, o.path)
+		pub, _ := w.lastPub.Load().(cid.Cid)
 		t := w.rec.now()
 		w.rec.retAt(idb, t, out{})
 		if err != nil {
 			w.opErr("flushpath", o, err)
 			return
+		}
+		// FlushPath = flush the file up to the root, then wait for the
+		// republisher: the root it has published by now must contain the file
+		// as flushed (or newer).
+		if pub.Defined() {
+			if rn, err := w.raw.Get(ctx, pub); err != nil {
+				w.fail("published-root-readback-error", "published root is in the DAG service", pub.String(), err.Error())
+			} else if v, err := w.readAt(rn, o.path); err != nil {
+				w.fail("published-root-readback-error", "published root is a readable tree containing the shared files", "content of "+o.path, err.Error())
+			} else {
+				w.rec.retAt(idp, t, out{Val: v})
+			}
 		}
 		v, err := w.readNode(nd)
 		if err != nil {
@@ -1250,11 +1316,15 @@ func strictModel(init string) porcupine.Model {
 	}
 }
 
-// rmwModel: like strict, but a setattr is a non-atomic read-modify-write of the
-// whole node: half 'a' snapshots the content, half 'b' stores the snapshot back.
-// (Exactly what File.SetMode/SetModTime do on an inline file node.) A history
-// that is illegal under strictModel and legal under rmwModel is explained by
-// that defect and by nothing else.
+// rmwModel is used only to classify a lost write in a history that contains
+// File.SetMode/SetModTime: like strictModel, but every MFS operation that reads
+// fi.node and later stores a node derived from it is a non-atomic
+// read-modify-write: half 'a'/'R' snapshots the content, half 'b' stores the
+// snapshot back (descriptor read at Close, File.Flush), half 'B' (setattr)
+// stores the snapshot's UnixFS data combined with the links of the then
+// current node, i.e. possibly garbage. A history that loses a write under
+// strictModel but is legal under rmwModel is explained by that known defect
+// and by nothing else.
 const garbled = "\x01garbled"
 
 func rmwModel(init string) porcupine.Model {
@@ -1351,7 +1421,13 @@ func (w *world) summarise(completed bool) {
 		}
 	}
 	c.Count("events", int64(2*len(all)))
-	c.Max("max_concurrency", int64(vhist.MaxConcurrency(all)))
+	var returned []porcupine.Operation
+	for _, o := range all {
+		if o.Output != nil {
+			returned = append(returned, o)
+		}
+	}
+	c.Max("max_concurrency", int64(vhist.MaxConcurrency(returned)))
 
 	byKey := map[string][]porcupine.Operation{}
 	for _, o := range all {
@@ -1408,7 +1484,7 @@ func (w *world) summarise(completed bool) {
 		}
 	}
 	k.SetShape(w.stratum + "\n" + shape.String())
-	if completed && vhist.MaxConcurrency(all) >= 2 && overlapWrite && crossRead {
+	if completed && vhist.MaxConcurrency(returned) >= 2 && overlapWrite && crossRead {
 		k.Nontrivial()
 	}
 
@@ -1441,12 +1517,16 @@ func (w *world) summarise(completed bool) {
 		akind, anomaly := lostWrite(init, strictOps)
 		if anomaly == "" {
 			c.Count("nonlinearizable_but_no_lost_write", 1)
+			c.Count("nonlinearizable_but_no_lost_write_"+w.stratum, 1)
 			c.Note("nonlinearizable_example", fmt.Sprintf("%s %s: %s", k.ID, key, strings.Join(tailLines(historyLines(strictOps), 12), " ; ")))
 			continue
 		}
 		class := "lost-write/" + w.stratum
 		note := ""
 		switch {
+		case akind == "stale:"+whatPublishedRoot:
+			class = "lost-write/published-root-stale/" + w.stratum
+			note = " (the file's own node is current; the root handed to the publish function is not)"
 		case akind == "future:"+whatFlushPathFile || akind == "phantom:"+whatFlushPathFile:
 			// FlushPath(file) returns the File's live node object and the
 			// harness reads it after stamping the return: a value from the
@@ -1533,7 +1613,9 @@ func lostWrite(init string, ops []porcupine.Operation) (kind, msg string) {
 				last = w
 			}
 		}
-		admissible := func(w wr) bool { return w.call < r.Return && (w.ret == inf || w.ret > last.call || w.call == last.call) }
+		admissible := func(w wr) bool {
+			return w.call < r.Return && (w.ret == inf || w.ret > last.call || w.call == last.call)
+		}
 		if i.Kind == 's' {
 			okSize := false
 			for _, w := range writes {
@@ -1549,7 +1631,7 @@ func lostWrite(init string, ops []porcupine.Operation) (kind, msg string) {
 		}
 		var src *wr
 		for j := range writes {
-			if writes[j].val == ov.Val {
+			if writes[j].val == ov.Val && (src == nil || !admissible(*src)) {
 				src = &writes[j]
 			}
 		}
@@ -1559,7 +1641,7 @@ func lostWrite(init string, ops []porcupine.Operation) (kind, msg string) {
 		case src.call >= r.Return:
 			return "future:" + i.What, fmt.Sprintf("%s [%d,%d] by c%d returned %q before its write [%d,%d] was invoked", i.What, r.Call, r.Return, i.Client, short(ov.Val), src.call, src.ret)
 		case !admissible(*src):
-			return "stale", fmt.Sprintf("lost write: %s [%d,%d] by c%d returned %q (written by c%d [%d,%d]) although write %q by c%d [%d,%d] was invoked after that write had been acknowledged and was itself acknowledged before the read began",
+			return "stale:" + i.What, fmt.Sprintf("lost write: %s [%d,%d] by c%d returned %q (written by c%d [%d,%d]) although write %q by c%d [%d,%d] was invoked after that write had been acknowledged and was itself acknowledged before the read began",
 				i.What, r.Call, r.Return, i.Client, short(ov.Val), src.client, src.call, src.ret, short(last.val), last.client, last.call, last.ret)
 		}
 	}
